@@ -5,8 +5,8 @@ package c01asm
 // C01, second stream ("assembled"): no stubs.  A generated heimdall configuration
 // (REAL mechanisms: anonymous / unauthorized / basic_auth authenticators, allow /
 // deny / cel authorizers, generic contextualizers against a local endpoint with and
-// without continue_pipeline_on_error, noop / header finalizers, default / redirect /
-// www_authenticate error handlers, an optional default rule, respond overrides) and
+// without continue_pipeline_on_error, noop / header finalizers, default / redirect
+// error handlers, an optional default rule, respond overrides) and
 // a generated rule set (REAL `if` CEL expressions) are loaded by the REAL
 // configuration loader, mechanism catalogue, rule factory, file_system provider,
 // rule-set processor and repository — the fx modules cmd/serve uses, minus the ones
@@ -148,8 +148,6 @@ func asmCoqEH(s asmStep) string {
 		k = `(EhReal (MRedirect 0%Z (Some "http://idp.example/login"%string)))`
 	case "redir301":
 		k = `(EhReal (MRedirect 301%Z (Some "/local"%string)))`
-	case "www":
-		k = `(EhReal (MWWW "r"%string))`
 	}
 
 	return vf.CoqApp("ehs", asmCoqCond(s.If), k)
@@ -230,7 +228,9 @@ func asmMechanisms(helper string) map[string]any {
 			map[string]any{"id": "dflt", "type": "default"},
 			map[string]any{"id": "redir", "type": "redirect", "config": map[string]any{"to": "http://idp.example/login"}},
 			map[string]any{"id": "redir301", "type": "redirect", "config": map[string]any{"to": "/local", "code": 301}},
-			map[string]any{"id": "www", "type": "www-authenticate", "config": map[string]any{"realm": "r"}},
+			// no www_authenticate handler here: it cannot be declared in a configuration file at all (the schema
+			// demands type "www-authenticate", the type registry only knows "www_authenticate"); the first stream
+			// runs the real mechanism
 		},
 	}
 }
@@ -280,7 +280,7 @@ func asmConfig(b asmBatch, helper, rulesPath string) string {
 	with := map[string]any{}
 
 	for k, v := range map[string]int{
-		"accepted": b.R.Accepted, "argument_error": b.R.Precond, "authentication_error": b.R.Authn,
+		"accepted": b.R.Accepted, "authentication_error": b.R.Authn,
 		"authorization_error": b.R.Authz, "communication_error": b.R.Comm, "internal_error": b.R.Internal, "no_rule_error": b.R.NoRule,
 	} {
 		if v != 0 {
@@ -468,7 +468,7 @@ func asmGenRule(r *vf.Rand, calm, isDefault bool) *asmRule {
 	}
 
 	for i, m := 0, r.Intn(4); i < m; i++ {
-		rl.EH = append(rl.EH, asmStep{M: vf.Pick(r, []string{"dflt", "redir", "redir301", "www"}), If: cond()})
+		rl.EH = append(rl.EH, asmStep{M: vf.Pick(r, []string{"dflt", "redir", "redir301"}), If: cond()})
 	}
 
 	if !isDefault {
@@ -517,7 +517,9 @@ func asmGenBatch(r *vf.Rand, i int) asmBatch {
 		b.R = stacks.Respond{
 			Verbose: r.Bool(),
 			Authn:   vf.Pick(r, []int{0, 407, 470}), Authz: vf.Pick(r, []int{0, 404}), Comm: vf.Pick(r, []int{0, 503, 504}),
-			Precond: vf.Pick(r, []int{0, 422}), NoRule: vf.Pick(r, []int{0, 410}), Internal: vf.Pick(r, []int{0, 599}),
+			// no argument_error override: the schema calls it precondition_error, the loader argument_error,
+			// so a file can configure neither
+			NoRule: vf.Pick(r, []int{0, 410}), Internal: vf.Pick(r, []int{0, 599}),
 			Accepted: vf.Pick(r, []int{0, 202, 204}),
 		}
 	}
